@@ -514,7 +514,8 @@ def _run_meta(job):
                         c[tuple(a)] += 1
                     else:
                         c.update(tuple(x) for x in a)
-        res = ds.filter_by.collect_generation_meta(inplace=inplace)
+        clear = job.get("clear", True)
+        res = ds.filter_by.collect_generation_meta(inplace=inplace, clear_in_mazes=clear)
         got = res.generation_metadata_collected
         ok = got is not None and set(got) == set(exp) and all({_k(a): b for a, b in got[k].items()} == {_k(a): b for a, b in exp[k].items()} for k in exp)
         obs = [("collected metadata has exact value counts over all mazes", z3.BoolVal(bool(ok))),
@@ -548,7 +549,7 @@ def _replay_meta(job, inputs, notes):
 
     r = explore(lambda ctx: _run_meta(job)(ctx), label="replay")
     if r.cex:
-        return f"filter-metadata | {r.cex[0]['obligation']} (dataset {job['ds']}, inplace={job['inplace']})"
+        return f"filter-metadata | {r.cex[0]['obligation']} (dataset {job['ds']}, inplace={job['inplace']}, clear_in_mazes={job.get('clear', True)})"
     return None
 
 
@@ -573,6 +574,7 @@ def jobs(tier, seed):
     for ds in (["dfs4", "perc3"] if q else ["dfs4", "perc3", "dfs2"]):
         for inplace in (True, False):
             out.append(dict(h="meta", ds=ds, inplace=inplace))
+            out.append(dict(h="meta", ds=ds, inplace=inplace, clear=False))
     out[0]["twin"] = True
     return out
 
